@@ -280,6 +280,11 @@ func (ts *Terms) compute(v ssa.Value, fr *Frame, depth int) *Term {
 	case *ssa.Lookup:
 		return mk("index", "", ts.of(x.X, fr, depth+1), ts.of(x.Index, fr, depth+1))
 	case *ssa.Extract:
+		if c, ok := x.Tuple.(*ssa.Call); ok {
+			if t := ts.helperInline(c, fr, x.Index); t != nil {
+				return t
+			}
+		}
 		return ts.extract(ts.of(x.Tuple, fr, depth+1), x.Index)
 	case *ssa.Phi:
 		m := map[string]*Term{}
@@ -665,6 +670,11 @@ func (ts *Terms) call(x *ssa.Call, fr *Frame, depth int) *Term {
 			}
 		}
 	}
+	if f := c.StaticCallee(); f != nil && f.Signature.Results().Len() == 1 {
+		if t := ts.helperInline(x, fr, 0); t != nil {
+			return t
+		}
+	}
 	t := &Term{Op: "call", Name: callName(x), Site: x.Pos()}
 	if t.Name == "" && !c.IsInvoke() {
 		// call of a function value: name it by the value's origin
@@ -672,6 +682,50 @@ func (ts *Terms) call(x *ssa.Call, fr *Frame, depth int) *Term {
 	}
 	t.Args = ts.callArgs(x, fr, depth, nil)
 	return t
+}
+
+// helperInline sees through an extracted helper: an UNEXPORTED irismod function
+// that reads no state (no store Get/Has/iterator, no bank/ext query) - a pure
+// computation or a writer - is replaced by the value it returns on its
+// non-failure returns, with its parameters bound to the call's arguments.
+// Getters and exported API functions keep their names (rules anchor on them).
+func (ts *Terms) helperInline(x *ssa.Call, fr *Frame, idx int) *Term {
+	f := x.Common().StaticCallee()
+	if f == nil || f.Blocks == nil || !isIrismodFunc(f) || f.Parent() != nil || frameDepth(fr) >= 14 {
+		return nil
+	}
+	name := f.Name()
+	if name == "" || !(name[0] >= 'a' && name[0] <= 'z') {
+		return nil
+	}
+	res := f.Signature.Results()
+	if idx >= res.Len() || isErrorType(res.At(idx).Type()) {
+		return nil
+	}
+	if onChain(fr, f) {
+		return nil
+	}
+	for k := range ts.cx.transPrimKinds(f) {
+		if strings.HasPrefix(k, "store.get") || strings.HasPrefix(k, "store.has") || strings.HasPrefix(k, "store.iter") || strings.HasPrefix(k, "store.riter") {
+			return nil
+		}
+		if (strings.HasPrefix(k, "ext.") || strings.HasPrefix(k, "bank.") || strings.HasPrefix(k, "nft.")) && !isMutatingKind(k) {
+			return nil
+		}
+	}
+	nfr := &Frame{Fn: f, Parent: fr, Call: x, Depth: frameDepth(fr) + 1}
+	m := map[string]*Term{}
+	for _, r := range returnsOf(f) {
+		if isFailureReturn(r) || idx >= len(r.Results) {
+			continue
+		}
+		t := ts.Of(r.Results[idx], nfr)
+		m[t.String()] = t
+	}
+	if len(m) == 0 || len(m) > 4 {
+		return nil
+	}
+	return phiOf(m)
 }
 
 // Inlined evaluates the result #idx of a call to an irismod function by
